@@ -359,8 +359,47 @@ func pruneToVerifyIncrementalStart.traverse
   ensures !isnil(result)
   // (a leaf hashes the same in every version)
   ensures C03/leaf-is-version-independent: pos.Height == 0 ==> HistFull(pos.Index, pos.Height) == Hist(pos.Index, pos.Height, version)
-  ensures C03/start-value: version <= theEnd() && pos.Height <= 64 && inRange(version, pos.Index, pos.Height) && AgreeE(pos.Index, pos.Height, version, theEnd(), thePath()) ==> evalC(result, thePath()) == Hist(pos.Index, pos.Height, version)
+  // (stated for both values of the flag "the end version is a target below pos")
+  ensures C03/start-value: version <= theEnd() && pos.Height <= 64 && AgreeE(pos.Index, pos.Height, true, true, version, theEnd(), thePath()) ==> evalC(result, thePath()) == Hist(pos.Index, pos.Height, version)
+  ensures C03/start-value-end-elsewhere: version <= theEnd() && pos.Height <= 64 && AgreeE(pos.Index, pos.Height, true, false, version, theEnd(), thePath()) ==> evalC(result, thePath()) == Hist(pos.Index, pos.Height, version)
 
+// target lists (at most two entries). The sub-slice facts are proved; that the cut is at the
+// first entry >= version is sort.Search's and is ASSUMED (the list is sorted).
+func targetsList.Split
+  props C03 C12
+  ensures len(result_0) + len(result_1) == len(t)
+  // (spelled out for the two positions a target list can have)
+  ensures len(result_0) >= 1 ==> result_0[0] == t[0]
+  ensures len(result_0) >= 2 ==> result_0[1] == t[1]
+  ensures len(result_1) >= 1 ==> result_1[0] == t[len(result_0)]
+  ensures len(result_1) >= 2 ==> result_1[1] == t[len(result_0) + 1]
+  assumes len(result_0) >= 1 ==> result_0[0] < version
+  assumes len(result_0) >= 2 ==> result_0[1] < version
+  assumes len(result_1) >= 1 ==> result_1[0] >= version
+  assumes len(result_1) >= 2 ==> result_1[1] >= version
+// ASSUMED (sort.Search again): inserting into an empty or one-entry sorted list
+func targetsList.InsertSorted
+  assumes len(t) == 0 ==> len(result) == 1 && result[0] == version
+  assumes len(t) == 1 && t[0] == version ==> len(result) == 1 && result[0] == version
+  assumes len(t) == 1 && t[0] < version ==> len(result) == 2 && result[0] == t[0] && result[1] == version
+  assumes len(t) == 1 && t[0] > version ==> len(result) == 2 && result[0] == version && result[1] == t[0]
+
+// C03 (end side), the binding step: with an audit path whose present values all have the
+// length of a digest (PathOK) and whose needed values were all present (readsOK), if the END
+// recomputation below pos comes out as the true hash of that subtree, then every value it
+// read is the true one (AgreeE). Two cases, as for C02: pos lies on the path to `end`
+// (true hash Hist(pos, end)), or pos is a complete subtree left of it (true hash HistFull).
+// The last conjunct carries AgreeE down the left spine to the root of the START tree.
+// (theStart(), thePath(): arbitrary, fixed.)
+// which of the start and the end version are targets here: read off the list itself
+define TS(t) = len(t) >= 1 && t[0] == theStart()
+define TE(t, e) = len(t) >= 1 && t[len(t) - 1] == e
+define TgtWF(t, e) = len(t) <= 2 && (len(t) == 2 ==> t[0] == theStart() && t[1] == e && theStart() < e) && (len(t) == 1 ==> t[0] == theStart() || t[0] == e)
+define noWrap(i, h) = (h >= 64 && i == 0) || (h < 64 && i + ((uint64(1) << uint64(h)) - 1) >= i)
+define EndAnte(pos, targets, end) = pos.Height <= 64 && noWrap(pos.Index, pos.Height) && theStart() <= end && TgtWF(targets, end) && PathOK(thePath())
+define StartH() = uint16(len64(theStart()))
+define StartHOK() = StartH() <= 64 && (StartH() == 64 || theStart() < (uint64(1) << uint64(StartH())))
+define SpineAgree(pos, targets, end) = pos.Index == 0 && TS(targets) && StartHOK() && StartH() <= pos.Height ==> AgreeE(0, StartH(), true, true, theStart(), end, thePath()) || AgreeE(0, StartH(), true, false, theStart(), end, thePath())
 func pruneToVerifyIncrementalEnd
   props C03 C12
   ensures !isnil(result)
@@ -369,6 +408,10 @@ func pruneToVerifyIncrementalEnd.traverse
   requires pos != nil
   decreases pos.Height
   ensures !isnil(result)
+  ensures C03/leaf-is-version-independent: pos.Height == 0 ==> HistFull(pos.Index, pos.Height) == Hist(pos.Index, pos.Height, end)
+  ensures C03/end-recomputation-is-a-digest: EndAnte(pos, targets, end) && readsOK(result, thePath()) ==> blen(evalC(result, thePath())) == hlen()
+  ensures C03/end-binding: EndAnte(pos, targets, end) && readsOK(result, thePath()) && TE(targets, end) && evalC(result, thePath()) == Hist(pos.Index, pos.Height, end) ==> AgreeE(pos.Index, pos.Height, TS(targets), true, theStart(), end, thePath()) && SpineAgree(pos, targets, end)
+  ensures C03/end-binding-in-a-complete-subtree: EndAnte(pos, targets, end) && readsOK(result, thePath()) && !TE(targets, end) && completeAt(pos.Index, pos.Height, end) && evalC(result, thePath()) == HistFull(pos.Index, pos.Height) ==> AgreeE(pos.Index, pos.Height, TS(targets), false, theStart(), end, thePath()) && SpineAgree(pos, targets, end)
 
 // ---- tree API used by the balloon (bodies: see the tree sections) ----------------
 // UNVERIFIED as yet: stated here so that balloon-level properties are proved
